@@ -59,18 +59,22 @@ class Target:
                 d[k] = tuple(d[k])
         return cls(**d)
 
+    # deliberately NOT in alphabetical order: anything that silently re-orders by name (HDF5 groups iterate
+    # alphabetically) then mismatches names and columns
+    NAMES = ("theta", "mass", "chi", "alpha", "zeta", "beta_p")
+
     @property
     def parameters(self):
-        return [f"p{i}" for i in range(self.dims)]
+        return [self.NAMES[i] for i in range(self.dims)]
 
     @property
     def periodic_parameters(self):
-        return [f"p{i}" for i in range(self.dims) if self.factor[i] == "vm"]
+        return [self.NAMES[i] for i in range(self.dims) if self.factor[i] == "vm"]
 
     @property
     def prior_bounds(self):
         return {
-            f"p{i}": (float(self.lower[i]), float(self.upper[i]))
+            self.NAMES[i]: (float(self.lower[i]), float(self.upper[i]))
             for i in range(self.dims)
         }
 
